@@ -257,6 +257,16 @@ def checkStep (e : Env) (pre : Sys) (op : Op) (res : Res) (post : Sys) (origin :
    else []) ++
   -- C10: the actor of an accepted message must be entitled to act for what it touched
   (if res = .ok then (actorViolations pre.st op).map (fun v => ("C10", s!"clause=actor cls={match op with | .cancel .. => "cancel-claimed-provider" | _ => "none"} rec={v}")) else []) ++
+  -- C10: an accepted Reset that names transaction addresses replaces the node's list with exactly those: an address the
+  -- node no longer lists has no authority left
+  (match op, res with
+   | .reset m, .ok =>
+     if m.txAddrs ≠ [] then
+       (match post.st.getNode m.creator with
+        | some n => if n.txAddresses = m.txAddrs then [] else [("C10", s!"clause=resetReplacesTxAddrs cls=none rec=node{m.creator}:{n.txAddresses}")]
+        | none => [])
+     else []
+   | _, _ => []) ++
   (if res = .ok then (renewalViolations pre.st post.st op).map (fun v => ("C10", s!"clause=renewalOwnedBySigner cls=none rec={v}")) else []) ++
   -- C11: a completed shard disappears only at/after the end of its paid period, or through an
   -- owner/grantee request (terminate, force-push completion), a migration hand-over or a cancel
